@@ -470,6 +470,14 @@ def _p1aab():
                            [[np.zeros(3), np.array([0.3, 0.1, 0.2])], [np.array([0.1, 0.35, 0.25])]], ['A', 'B'])
 
 
+def _p1chain():
+    """P1 chains: A atoms 1 apart along x (chains ~4 apart), a far B atom at a general position removes the inversion.
+    With a cutoff beyond 2 the collinear clusters {0, a, 2a} hold the same jump at two inequivalent placements"""
+    from onsager import crystal
+    return crystal.Crystal(np.array([[1., 0.2, 0.1], [0., 4., 0.3], [0., 0., 4.3]]),
+                           [[np.zeros(3)], [np.array([0.37, 0.5, 0.5])]], ['A', 'B'])
+
+
 def _sq():
     from onsager import crystal
     return crystal.Crystal(np.diag([1., 1., 3.3]), [np.zeros(3)], ['A'])
@@ -490,7 +498,7 @@ def _skewsq():
     return crystal.Crystal(np.array([[1., 3., 0.], [0., 1., 0.], [0., 0., 1.5]]), [np.zeros(3)], ['A'], noreduce=True)
 
 
-LOCAL = {'CHAIN': _chain, 'CHAINAB': _chainab, 'ZIGZAG': _zigzag, 'P1AAB': _p1aab, 'SQLAYER': _sq, 'TRILAYER': _tri, 'SKEWSQ': _skewsq}
+LOCAL = {'CHAIN': _chain, 'CHAINAB': _chainab, 'ZIGZAG': _zigzag, 'P1AAB': _p1aab, 'P1CHAIN': _p1chain, 'SQLAYER': _sq, 'TRILAYER': _tri, 'SKEWSQ': _skewsq}
 
 # name: (catalogue crystal, supercell matrix, spectator species)
 SUPERCELLS = {
